@@ -99,6 +99,11 @@ func (e *Enc) call(fr *Frame, ins *ssa.Call, c *ssa.CallCommon, guard T, st *Sta
 			e.heapSorts[k] = BoolS
 			st.H[k] = True
 			e.markWrite(k)
+			// and how often: ncalls(Name)
+			kn := "!ncalls|" + nm
+			old := e.heapGet(st, kn, IntS)
+			st.H[kn] = e.define(T{IntS, app("+", old.E, "1")}, "ncalls")
+			e.markWrite(kn)
 		}
 	}
 	var args []Val
@@ -119,6 +124,7 @@ func (e *Enc) call(fr *Frame, ins *ssa.Call, c *ssa.CallCommon, guard T, st *Sta
 			args = append(args, e.get(fr, a))
 		}
 		key := "(" + types.TypeString(c.Value.Type(), func(p *types.Package) string { return p.Path() }) + ")." + c.Method.Name()
+		e.callSiteAssertsInvoke(fr, c, args, guard, st, ins.Pos())
 		if ct := e.prog.contractByFull(key); ct != nil {
 			setRes(e.applyContract(fr, ct, nil, c.Signature(), c.Method.Name(), args, guard, st, ins.Pos()))
 			return
@@ -620,6 +626,37 @@ func (e *Enc) callSiteAsserts(fr *Frame, fn *ssa.Function, args []Val, guard T, 
 		for _, c := range cs.Asserts {
 			t := e.evalBool(sc, c.E)
 			e.oblige("assert@call", fmt.Sprintf("%s#%d:%s", key, ord, clabel(c)), guard, t, c.Src, pos)
+		}
+	}
+}
+
+// callSiteAssertsInvoke is callSiteAsserts for interface method calls; the callee is named
+// "(Iface).Method" relative to the function's package, arguments are $<param name> ($recv the receiver).
+func (e *Enc) callSiteAssertsInvoke(fr *Frame, c *ssa.CallCommon, args []Val, guard T, st *State, pos token.Pos) {
+	if fr == nil || fr.contract == nil || len(fr.contract.Calls) == 0 || fr.depth != 0 {
+		return
+	}
+	key := "(" + types.TypeString(c.Value.Type(), types.RelativeTo(fr.fn.Pkg.Pkg)) + ")." + c.Method.Name()
+	fr.callOrd[key]++
+	ord := fr.callOrd[key]
+	sig := c.Signature()
+	for _, cs := range fr.contract.Calls {
+		if cs.Callee != key || (cs.Ord != 0 && cs.Ord != ord) {
+			continue
+		}
+		sc := e.scopeAt(fr, fr.curBlock, fr.curIdx, st)
+		sc.vars["$recv"] = args[0]
+		for i := 0; i < sig.Params().Len() && i+1 < len(args); i++ {
+			a := args[i+1]
+			a.Typ = sig.Params().At(i).Type()
+			sc.vars[fmt.Sprintf("$%d", i+1)] = a
+			if n := sig.Params().At(i).Name(); n != "" && n != "_" {
+				sc.vars["$"+n] = a
+			}
+		}
+		for _, cl := range cs.Asserts {
+			t := e.evalBool(sc, cl.E)
+			e.oblige("assert@call", fmt.Sprintf("%s#%d:%s", key, ord, clabel(cl)), guard, t, cl.Src, pos)
 		}
 	}
 }
